@@ -5,6 +5,7 @@ use crate::gen::doc;
 use crate::rng::Rng;
 use crate::util::hexs;
 
+// configurations may contain structures of the documented generics, rendered by the harness as <s>
 const ELEMENTS: &[&str] = &["p", "blockquote", "ul", "ol", "li", "pre", "code", "h1", "h2", "h3", "h4", "h5", "h6", "hr", "em", "strong", "s", "a", "img", "br"];
 const VOID: &[&str] = &["hr", "img", "br"];
 
@@ -107,8 +108,16 @@ pub fn run(n: usize, rng: &mut Rng, rep: &mut Report) {
     }
     let res = crate::run::big_stack(move || {
         let mut rep = Report::new();
-        for (c, d) in cases {
-            let md = c.build();
+        for (i, (c, d)) in cases.into_iter().enumerate() {
+            // every 9th case: the html plugin WAS added, a document was parsed, then its two rules were removed
+            let md = if i % 9 == 4 {
+                let mut md = c.build();
+                markdown_it::plugins::html::add(&mut md);
+                let _ = crate::util::guarded(|| md.parse("warm <b>up</b>\n\n<div>\nx\n</div>").render());
+                md.inline.remove_rule::<markdown_it::plugins::html::html_inline::HtmlInlineScanner>();
+                md.block.remove_rule::<markdown_it::plugins::html::html_block::HtmlBlockScanner>();
+                md
+            } else { c.build() };
             let input = format!("cfg[{}] src={}", c.describe(), hexs(&d));
             let (h, x) = match crate::util::guarded(|| { let t = md.parse(&d); (t.render(), t.xrender()) }) { Ok(v) => v, Err(_) => { rep.stats.count("skipped_panic_C01"); continue; } };
             rep.stats.case(&input, d.contains('<') || d.contains('"') || d.contains('&'));
